@@ -62,6 +62,9 @@ FIRST_MISSED = {
     "C17-f": "missed at first; a calls= hook that re-enters parse (blocks on the pinned tree, goes through with a re-entrant lock) added",
     "C18-f": "first only as a broken obligation; comments glued to words added to the neutral statements",
     "C19-f": "missed at first; unquoted column names that are words of the DDL grammar (key, index, …) added",
+    "C06-g": "missed at first (random doubles have 17-digit mantissas; the fixed list had no negative exponent-only repr); short mantissas × exponents of both signs added",
+    "C12-g": "missed at first; statements in which one node has several parents (simple CASE over a call) × swaps / chains / rotations of the operation names added, shared Call objects in the scrub correspondence",
+    "C18-g": "first only as a broken obligation (`dialect_diff_confined`); suffix operators (field access on calls / brackets, `:`, `::`, OVER, FILTER) added to the operator probe",
 }
 rows = []
 for d in sorted(glob.glob(os.path.join(V, "seeded", "*"))):
